@@ -38,6 +38,11 @@ func Exec(w []string) (ans string, mine bool) {
 	}
 	switch w[0] {
 	case "frame", "rows", "hdr", "body", "falloc":
+	case "deep":
+		if len(w) != 3 {
+			return "bad-op", true
+		}
+		return deepAnswer(w[1], atoi(w[2])), true
 	case "prim":
 		if len(w) != 2 {
 			return "bad-op", true
@@ -427,6 +432,17 @@ func Gen(r *vh.Rng, tier string, emit emitFn) {
 	g.allocs(mult)
 	for _, n := range primFuncs {
 		emit("prim "+n, primAnswer(n), "prim", true)
+	}
+	// recursion depth = input length / constant: process-fatal stack overflow, shown in a subprocess
+	// under a 32 MiB stack limit (KF-C05-13)
+	deep := [][2]interface{}{{"typeinfo", 100}, {"typeinfo", 1500000}}
+	if tier == "thorough" {
+		deep = append(deep, [][2]interface{}{{"gct", 100}, {"gct", 1500000}, {"ts", 100}, {"ts", 1500000}}...)
+	}
+	for _, d := range deep {
+		line := fmt.Sprintf("deep %s %d", d[0], d[1])
+		a := deepAnswer(d[0].(string), d[1].(int))
+		emit(line, a, "deep/"+a, true)
 	}
 	Skipped += g.skipped
 }
